@@ -416,6 +416,40 @@ def check(repo: Repo) -> Result:
         if rebinds:
             res.bad(f"{tn}:data-parameter-rebound", fn.where(rebinds[0]), f"{cname}._convert re-binds its data parameter `{xp}`: the following NumPy calls thread out=self._get_out({xp}) into the new object, so in the in-place form the caller's array receives the numbers of the last step while its unit is set on a temporary wrapper (convert_to_equivalent leaves a corrupted array)", f"`{xp}` keeps denoting the caller's array", norm(rebinds[0])[:80], rid=r4)
             continue
+        # the copying form must leave its input alone: the only thing that may be handed to NumPy as out= is what
+        # _get_out returned for the data parameter (None in the copying form) or a fresh intermediate NumPy result -
+        # a name that can also stand for the data parameter itself (E = x ... out = E) makes `to_equivalent` overwrite
+        # the caller's array
+        sget = f"{fn.params[0]}._get_out({xp})"
+        ldefs = {}
+        for n_ in walk_no_nested(fn.node):
+            if isinstance(n_, ast.Assign) and len(n_.targets) == 1 and isinstance(n_.targets[0], ast.Name):
+                ldefs.setdefault(n_.targets[0].id, []).append(n_.value)
+
+        def _leaves(e, seen=()):
+            if isinstance(e, ast.Name) and e.id in ldefs and e.id not in seen:
+                out_ = []
+                for d_ in ldefs[e.id]:
+                    out_ += _leaves(d_, seen + (e.id,))
+                return out_
+            if isinstance(e, ast.IfExp):
+                return _leaves(e.body, seen) + _leaves(e.orelse, seen)
+            return [e]
+
+        aliasing = []
+        for c_ in walk_no_nested(fn.node):
+            if not isinstance(c_, ast.Call):
+                continue
+            for kw_ in c_.keywords:
+                if kw_.arg != "out":
+                    continue
+                for lf in _leaves(kw_.value):
+                    if isinstance(lf, ast.Name) and lf.id == xp:
+                        aliasing.append((c_, norm(kw_.value)))
+        if aliasing:
+            c_, shown = aliasing[0]
+            res.bad(f"{tn}:out-may-be-input", fn.where(c_), f"{cname}._convert hands NumPy an out= target (`{shown}`) that can be the data parameter `{xp}` itself even when the conversion is not in place: the copying form (to_equivalent / to / in_units with an equivalence) then overwrites the caller's array", f"out={sget} or a fresh intermediate result", norm(c_)[:90], rid=r4)
+            continue
         sp = SPEC.EQUIVALENCES.get(tn)
         spec_names = {}
         if sp:
@@ -655,5 +689,6 @@ MUTANTS = [
     Mutant("twin-commute", EQ, "ThermalEquivalence._convert", "np.multiply(x, pc.kboltz", "np.multiply(pc.kboltz, x", (), benign=True),
     Mutant("twin-alias-const", EQ, "ThermalEquivalence._convert", "pc.kboltz", "pc.boltzmann_constant", (), count=2, benign=True),
     Mutant("data-parameter-rebound", EQ, "SoundSpeedEquivalence._convert", "                v2 = np.multiply(x, x, out=self._get_out(x))\n                kT = np.multiply(v2, mu * pc.mh / gamma, out=self._get_out(x))\n                return np.true_divide(kT, pc.kboltz, out=self._get_out(x))", "                x = np.multiply(x, x, out=self._get_out(x))\n                kT = np.multiply(x, mu * pc.mh / gamma, out=self._get_out(x))\n                return np.true_divide(kT, pc.kboltz, out=self._get_out(x))", ("C09-R4",)),
+    Mutant("thermal-out-is-input", EQ, "ThermalEquivalence._convert", "return np.true_divide(x, pc.kboltz, out=self._get_out(x))", "return np.true_divide(x, pc.kboltz, out=x)", ("C09-R4",)),
     Mutant("equivalence-floor-division", EQ, "ThermalEquivalence._convert", "return np.true_divide(x, pc.kboltz, out=self._get_out(x))", "return np.floor_divide(x, pc.kboltz, out=self._get_out(x))", ("C09-R8",)),
 ]
